@@ -41,8 +41,18 @@ type c16Input struct {
 
 func c16MakeInput(i int, custom bool, key ctxKey) *c16Input {
 	if custom {
-		mc := &manualCtx{done: make(chan struct{})}
-		return &c16Input{ctx: mc, cancel: mc.cancel}
+		switch i % 3 {
+		case 0: // a non-standard Context implementation
+			mc := &manualCtx{done: make(chan struct{})}
+			return &c16Input{ctx: mc, cancel: mc.cancel}
+		case 1: // a context that carries a (far) deadline and is cancelled early, as `defer cancel()` does
+			ctx, cancel := context.WithTimeout(context.WithValue(context.Background(), key, i), time.Hour)
+			return &c16Input{ctx: ctx, cancel: cancel}
+		default: // the child of a deadline context, cancelled through its own cancel func
+			parent, pcancel := context.WithDeadline(context.Background(), time.Now().Add(time.Hour))
+			ctx, cancel := context.WithCancel(context.WithValue(parent, key, i))
+			return &c16Input{ctx: ctx, cancel: func() { cancel(); pcancel() }}
+		}
 	}
 	ctx, cancel := context.WithCancel(context.WithValue(context.Background(), key, i))
 	return &c16Input{ctx: ctx, cancel: cancel}
@@ -80,7 +90,7 @@ func c16Enumerated(c *core.Ctx) {
 					}
 					for _, order := range permutations(rest) {
 						cases++
-						c16Combine(c, n, nilMask, pre, order, cases%3 == 0)
+						c16Combine(c, n, nilMask, pre, order, cases%2 == 0)
 					}
 				}
 			}
@@ -102,8 +112,14 @@ func c16Enumerated(c *core.Ctx) {
 				rest = append(rest, -1) // -1 = call the cancel func
 				for _, order := range permutations(rest) {
 					cases++
-					c16Conflated(c, n, pre, order, cases%3 == 0)
+					c16Conflated(c, n, pre, order, cases%2 == 0)
 				}
+			}
+		}
+		for n := 1; n <= 3; n++ {
+			for which := 0; which < n; which++ {
+				cases++
+				c16ConflatedForever(c, n, which)
 			}
 		}
 		if pv := core.Recover(func() { bigbuff.ConflatedContext() }); pv == nil {
@@ -189,6 +205,43 @@ func c16Combine(c *core.Ctx, n, nilMask, pre int, order []int, custom bool) {
 		if res.Err() != nil {
 			c.Violate("combine-cancelled-early", "no input was ever cancelled but the result got cancelled; %s", desc)
 		}
+	}
+}
+
+// c16ConflatedForever: one input can never be cancelled (context.Background and friends): the result stays live
+// whatever happens to the other inputs, until its own cancel func is called.
+func c16ConflatedForever(c *core.Ctx, n, which int) {
+	desc := fmt.Sprintf("ConflatedContext n=%d with a never-cancellable input at %d", n, which)
+	ins := make([]*c16Input, n)
+	ctxs := make([]context.Context, n)
+	for i := range ins {
+		if i == which {
+			var bg context.Context = context.Background()
+			if i%2 == 1 {
+				bg = context.WithValue(context.WithoutCancel(context.Background()), ctxKey("bg"), 1)
+			}
+			ins[i] = &c16Input{ctx: bg, cancel: func() {}}
+		} else {
+			ins[i] = c16MakeInput(i, false, ctxKey(fmt.Sprintf("k%d", i)))
+		}
+		ctxs[i] = ins[i].ctx
+	}
+	res, cancel := bigbuff.ConflatedContext(ctxs...)
+	defer cancel()
+	for i, in := range ins {
+		if i != which {
+			in.cancel()
+		}
+	}
+	time.Sleep(300 * time.Microsecond)
+	core.WaitUntil(20, func() bool { return res.Err() != nil })
+	if res.Err() != nil {
+		c.Violate("conflated-cancelled-early", "the result was cancelled although one input can never be cancelled (is live forever) and cancel was not called; %s", desc)
+		return
+	}
+	cancel()
+	if !awaitCtx(res) {
+		c.Violate("conflated-not-cancelled", "cancel func called but the result is live; %s", desc)
 	}
 }
 
